@@ -107,6 +107,19 @@ def check_stable(ctx, data, label):
             if c2.to_ical() != b1:
                 ctx.violation('second-bytes-differ', {'data': data.decode('utf-8', 'replace')},
                               'second serialisation is not byte-identical', cls)
+                continue
+            # the same with the other serialisation order (sorted=False keeps insertion order at every depth)
+            try:
+                u1 = c.to_ical(sorted=False)
+                cu = icalendar.Component.from_ical(u1)
+            except ValueError:
+                continue
+            if canon_tree(tree_of(cu)) != canon_tree(tree_of(c)) or python_values(cu) != pv1:
+                ctx.violation('reparse-differs-unsorted', {'data': data.decode('utf-8', 'replace')},
+                              'tree after to_ical(sorted=False)+parse differs from the first parse', cls)
+            elif cu.to_ical(sorted=False) != u1:
+                ctx.violation('second-bytes-differ-unsorted', {'data': data.decode('utf-8', 'replace')},
+                              'second serialisation with sorted=False is not byte-identical', cls)
 
 
 def python_values(comp):
@@ -234,6 +247,12 @@ def rand_denotation(rng):
         elif r == 'RDATE':
             ds = [date(2020, rng.randint(1, 12), rng.randint(1, 28)) for _ in range(rng.randint(1, 3))]
             props.append((r, {'VALUE': 'DATE'}, 'datelist', ds))
+    if rng.random() < 0.2:
+        # a repeated property whose first value is empty (an empty TEXT is a value like any other)
+        nm = rng.choice(['COMMENT', 'X-NOTE'])
+        props = [p for p in props if p[0] != nm]
+        props.insert(rng.randint(0, len(props)), (nm, {}, 'text', ''))
+        props.append((nm, {}, 'text', rng.choice(['second', '', '0'])))
     return props
 
 
@@ -333,7 +352,9 @@ def check_first_parse(ctx, rng):
             ctx.violation('wellformed-value', {'data': data.decode('utf-8')}, f'{name}: {got!r} vs {v!r}', cls)
 
 
-HOSTILE = [b'BEGIN:VCALENDAR\r\nBEGIN:VEVENT\r\nGEO:48.85837009999;-122.08293249\r\nEND:VEVENT\r\nBEGIN:VTODO\r\nGEO:-0.00000049;179.9999996\r\nEND:VTODO\r\nEND:VCALENDAR\r\n',
+HOSTILE = [b'BEGIN:VCALENDAR\r\nBEGIN:VEVENT\r\nRRULE:freq=daily;count=10;byday=mo;Until=20241224T000000Z\r\nrrule:Freq=Weekly;ByMonth=3,4;wkst=su\r\nEND:VEVENT\r\nEND:VCALENDAR\r\n',
+           b'BEGIN:VCALENDAR\r\nBEGIN:VEVENT\r\nCOMMENT:\r\nCOMMENT:second\r\nCOMMENT:\r\nPERCENT-COMPLETE:0\r\nSEQUENCE:0\r\nSEQUENCE:5\r\nX-N:\r\nX-N:0\r\nBEGIN:VALARM\r\nTRIGGER:PT0S\r\nREPEAT:0\r\nREPEAT:2\r\nBEGIN:X-DEEP\r\nX-A:1\r\nBEGIN:X-DEEPER\r\nX-B:2\r\nEND:X-DEEPER\r\nEND:X-DEEP\r\nEND:VALARM\r\nEND:VEVENT\r\nEND:VCALENDAR\r\n',
+           b'BEGIN:VCALENDAR\r\nBEGIN:VEVENT\r\nGEO:48.85837009999;-122.08293249\r\nEND:VEVENT\r\nBEGIN:VTODO\r\nGEO:-0.00000049;179.9999996\r\nEND:VTODO\r\nEND:VCALENDAR\r\n',
            b'BEGIN:VCALENDAR\r\nBEGIN:VEVENT\r\nDTSTART:08000102T030405Z\r\nDTEND:00010101T000000\r\nRDATE;VALUE=DATE:09991231,00010101\r\nDUE;VALUE=DATE:00990101\r\nEND:VEVENT\r\nBEGIN:X-OLD\r\nDTSTART:00010101T000000\r\nEND:X-OLD\r\nEND:VCALENDAR\r\n',
            b'BEGIN:VCALENDAR\r\nBEGIN:VEVENT\r\nURL:a\\\\,b\r\nEND:VEVENT\r\nEND:VCALENDAR\r\n',
            b'BEGIN:VCALENDAR\r\nBEGIN:VEVENT\r\nSUMMARY:a\\\\,b\\\\n\\n%2C\r\nCATEGORIES:a\\,b,c\\\\,d\r\nEND:VEVENT\r\nEND:VCALENDAR\r\n',
